@@ -2,6 +2,7 @@ package main
 
 import (
 	"fmt"
+	"os"
 	"regexp/syntax"
 	"sort"
 	"strings"
@@ -26,12 +27,12 @@ func inlineTypesSmall(p *Program) func(f *ssa.Function, d int) bool {
 	return func(f *ssa.Function, d int) bool {
 		// a pre-filter written as a function (a scanner with loops instead of a regular expression) is a
 		// predicate of the text like MatchString: it stays an atom, both outcomes are explored
-		if f.Parent() == nil && f.Pkg == tp {
+		if f.Parent() == nil && fnPkg(f) == tp {
 			if res := f.Signature.Results(); res.Len() == 1 && isBoolType(res.At(0).Type()) && !simplePredicate(f) && len(f.Blocks) > 2 {
 				return false
 			}
 		}
-		return f.Parent() != nil || (f.Pkg == tp && len(f.Blocks) <= 2) || th(f, d)
+		return f.Parent() != nil || (fnPkg(f) == tp && len(f.Blocks) <= 2) || th(f, d)
 	}
 }
 
@@ -122,6 +123,32 @@ func RuleAddr(r *Report, p *Program) {
 			default:
 				if en == 1 {
 					bad = "text that netip did not parse is accepted under [" + cut(pa.State.Describe(), 160) + "]"
+				}
+				if en == 0 {
+					// a rejection that no recogniser justifies (no failed netip parse, no pre-filter that said no): the
+					// only other ground the parsers may have is one no valid address meets - a length outside 7..21
+					// ("0.0.0.0" .. "255.255.255.255:65535")
+					justified := false
+					for k, v := range pa.State.Bools {
+						if !v && (strings.Contains(k, "netip.Parse") || strings.Contains(k, "Match") || strings.HasPrefix(k, "pred")) {
+							justified = true
+						}
+						// a predicate of the text itself (a hand-written pre-filter) that said no
+						if !v && !strings.HasPrefix(k, "isnil(") && (strings.Contains(k, "(s,") || strings.Contains(k, "(s)") || strings.Contains(k, ",s)") || strings.Contains(k, ",s,")) {
+							justified = true
+						}
+					}
+					if !justified {
+						lr, has := pa.State.Ints["len(s)"]
+						if !has {
+							bad = "text is rejected without having been examined under [" + cut(pa.State.Describe(), 160) + "]"
+						} else if v := lr.Intersect(IntervalSet{{7, 21}}); !v.Empty() {
+							bad = fmt.Sprintf("text of length %s is rejected outright: valid addresses have 7 to 21 characters (255.255.255.255:65535 has 21)", v.String())
+						}
+					}
+				}
+				if os.Getenv("UHLINT_DEBUG") == "AD1" {
+					fmt.Fprintf(os.Stderr, "AD1 %s unparsed en=%d: %s\n", role, en, pa.State.Describe())
 				}
 			}
 		}
